@@ -263,10 +263,51 @@ def _one(idx):
                 if abs(fo + d1) > tol:
                     out["bad"].append(("force", "%s: Potential.force(%s) = %r, minus the true slope is %r" % (def_text(d, style), x, fo, -d1), text))
                     return out
+        if _MODE == "C07" and not out["bad"]:
+            table_forces(case, d, style, out)
     except Exception:
         import traceback
         out["machinery"] = traceback.format_exc()[-1500:]
     return out
+
+
+def table_forces(case, d, style, out):
+    """the force column of LAMMPS / DL_POLY tables is minus the slope of the tabulated energy (rows chosen to fall on the lattice)"""
+    from lib import formats
+    rows = {r["x"]: r for r in case["rows"]}
+    for target, nr in (("LAMMPS", 5), ("DL_POLY", 8)):
+        text = "[Tabulation]\ntarget : %s\nnr : %d\ncutoff : 4.0\n\n[Potential-Form]\n%s\n\n[Pair]\nAl-Al : %s\n" % (target, nr, FORMS, def_text(d, style))
+        try:
+            tab = Configuration().read(io.StringIO(text))
+            buf = io.StringIO()
+            tab.write(buf)
+        except Exception as e:
+            # a definition that cannot be evaluated at some grid point (e.g. a negative power at r = 0) is not this check's subject
+            continue
+        if target == "LAMMPS":
+            b = formats.parse_lammps_table(buf.getvalue())[0]
+            trip = [(float(r[1]), float(r[2]), float(r[3]), 1.0) for r in b["rows"]]
+        else:
+            t = formats.parse_dlpoly_table(buf.getvalue())
+            blk = t["blocks"][0]
+            trip = [(float(k + 1), float(blk["E"][k]), float(blk["F"][k]), float(k + 1)) for k in range(len(blk["E"]))]    # F column is -r dU/dr
+        for x, e, f, scale in trip:
+            row = rows.get(int(round(x)))
+            if row is None or abs(x - round(x)) > 1e-9 or not row.get("defined", True):
+                continue
+            v, d1 = float(fr(row["jet"]["v"])), float(fr(row["jet"]["d1"]))
+            S = scale_of(row)
+            out["n"] += 1
+            if abs(e - v) > 1e-7 * S:
+                out["bad"].append(("table-energy", "%s table of %s: energy at r=%s is %r, the definition denotes %r" % (target, def_text(d, style), x, e, v), text))
+                return
+            if row["boundary"] or not row["dom"]:
+                continue
+            tol = (1e-7 if (row["analytic"] and case["offers"]["d1"]) else 1e-5) * S * max(1.0, scale)
+            if abs(f + scale * d1) > tol:
+                out["bad"].append(("table-force", "%s table of %s: force entry at r=%s is %r, minus the slope of the tabulated energy%s is %r" % (
+                    target, def_text(d, style), x, f, " times r" if scale != 1.0 else "", -scale * d1), text))
+                return
 
 
 # ------------------------------------------------------------------------------------------------ custom formulas (FormEval.tla)
